@@ -291,7 +291,7 @@ pub fn run(ctx: &Ctx, acc: &mut Acc) {
                     acc.nontrivial(crate::rng::hash_str(&format!("{}:{k}", fam.name)));
                     // stop a family as soon as a doubling step is far beyond the bound (exponential growth
                     // makes larger k needlessly expensive; the violation is reported below)
-                    if k % 2 == 0 && k / 2 >= 4 {
+                    if k % 2 == 0 && k / 2 >= 3 {
                         if let (Some(a), Some(b)) = (&sizes[k / 2], &sizes[k]) {
                             let blown = a.iter().skip(1).any(|(st, sa)| b.iter().find(|x| x.0 == *st).is_some_and(|(_, sb)| *sb as f64 > 12.0 * (*sa).max(1) as f64));
                             if blown {
@@ -306,7 +306,7 @@ pub fn run(ctx: &Ctx, acc: &mut Acc) {
             }
         }
         // doubling rule
-        for k in [4usize, 6, 8] {
+        for k in [3usize, 4, 6, 8] {
             let (Some(a), Some(b)) = (&sizes[k], &sizes[2 * k]) else { continue };
             let src_ratio = b[0].1 as f64 / a[0].1 as f64;
             for (stage, sa) in a.iter().skip(1) {
